@@ -20,7 +20,7 @@ statement holds for every bit pattern, not for a sample of them.  The dynamic si
 stratum + `fe` stratum) runs every cell of the cross input_endian x dither x remove_dc x API x call shape on the real
 code with float32 samples chosen by bit pattern.
 -/
-namespace SSVerif.FeSwap
+namespace SSVerif.C18Swap
 open SSVerif.Generated.FeSwap
 
 /-- a 2-byte / 4-byte sample as it lies in memory, lowest address first; `β` = byte -/
@@ -174,4 +174,4 @@ example : iter rev4 0 (⟨0x3E, 0x80, 0xFF, 0xFF⟩ : W4 Nat) ≠ host4 true ⟨
 example : iter rev4 2 (⟨0x3E, 0x80, 0xFF, 0xFF⟩ : W4 Nat) ≠ host4 true ⟨0x3E, 0x80, 0xFF, 0xFF⟩ := by decide
 example : fstage "fe_shift_frame_float32/dither" true (⟨1, 2, 3, 4⟩ : W4 Nat) = ⟨4, 3, 2, 1⟩ := by decide
 
-end SSVerif.FeSwap
+end SSVerif.C18Swap
